@@ -101,7 +101,7 @@ pub open spec fn fri_commit_pre(u: &types::UnsentCommitment, c: &FriConfig) -> b
     &&& u.last_layer_coefficients@.len() == pow2(c.log_last_layer_degree_bound@)
 }
 
-//@repo crates/fri/src/fri.rs fn fri_validate_unsent_commitment props=C02,C18
+//@repo crates/fri/src/fri.rs fn fri_validate_unsent_commitment props=C02,C06,C07,C18
 pub fn fri_validate_unsent_commitment(
     unsent_commitment: &types::UnsentCommitment,
     config: &FriConfig,
@@ -110,7 +110,7 @@ pub fn fri_validate_unsent_commitment(
         2 <= config.n_layers@ <= 15, config.log_last_layer_degree_bound@ <= 15, config.inner_layers@.len() + 1 >= config.n_layers@, // [C18:fri-shape-check-after-config-validation]
     ensures
         r.is_ok() <==> (unsent_commitment.inner_layers@.len() + 1 >= config.n_layers@
-            && unsent_commitment.last_layer_coefficients@.len() == pow2(config.log_last_layer_degree_bound@)), // [C02,C18:fri-unsent-commitment-has-a-root-per-inner-layer-and-exactly-2^bound-coefficients]
+            && unsent_commitment.last_layer_coefficients@.len() == pow2(config.log_last_layer_degree_bound@)), // [C02,C06,C07,C18:fri-unsent-commitment-has-a-root-per-inner-layer-and-exactly-2^bound-coefficients]
         r.is_ok() ==> fri_commit_pre(unsent_commitment, config),
 {
     proof {
@@ -235,7 +235,7 @@ pub proof fn lemma_cs(step: nat)
     assert(pow2(1) == 2 && pow2(2) == 4 && pow2(3) == 8 && pow2(4) == 16) by(compute_only);
 }
 
-//@repo crates/fri/src/fri.rs fn fri_verify_layers props=C01,C02,C07
+//@repo crates/fri/src/fri.rs fn fri_verify_layers props=C01,C02,C06,C07
 #[verifier::loop_isolation(false)]
 fn fri_verify_layers(
     fri_group: Vec<Felt>,
@@ -253,8 +253,8 @@ fn fri_verify_layers(
         forall|k: int| 0 <= k < n_layers@ ==> 1 <= (#[trigger] step_sizes@[k])@ <= 4, // [C18:fri-steps-in-1..=4-so-coset-size-in-2..16]
         queries@.len() <= 0xffff_ffff, all_xinv_nonzero(fqs(queries@)), // [C18:fri-layer-queries-few-and-with-nonzero-inverse-points]
     ensures
-        r.is_ok() <==> layers_walk(fqs(queries@), 0, n_layers@, commitment@, layer_witness@, eval_points@, step_sizes@, fv(fri_group@)) is Some, // [C01,C02,C07:inner-layers-ok-iff-every-layer-folds-and-DECOMMITS-against-its-root]
-        r.is_ok() ==> fqs(r->Ok_0@) == layers_walk(fqs(queries@), 0, n_layers@, commitment@, layer_witness@, eval_points@, step_sizes@, fv(fri_group@))->Some_0, // [C01,C02,C07:last-layer-queries-are-the-folded-queries]
+        r.is_ok() <==> layers_walk(fqs(queries@), 0, n_layers@, commitment@, layer_witness@, eval_points@, step_sizes@, fv(fri_group@)) is Some, // [C01,C02,C06,C07:inner-layers-ok-iff-every-layer-folds-and-DECOMMITS-against-its-root]
+        r.is_ok() ==> fqs(r->Ok_0@) == layers_walk(fqs(queries@), 0, n_layers@, commitment@, layer_witness@, eval_points@, step_sizes@, fv(fri_group@))->Some_0, // [C01,C02,C06,C07:last-layer-queries-are-the-folded-queries]
 {
     hide(fadd); hide(fsub); hide(fmul); hide(fdiv);
     let len: usize = n_layers.to_biguint().try_into().unwrap();
@@ -381,7 +381,7 @@ pub open spec fn fri_verify_pre(queries: Seq<Felt>, c: &FriCommitment, points: S
     &&& queries.len() <= 0xffff_ffff
 }
 
-//@repo crates/fri/src/fri.rs fn fri_verify props=C01,C02,C07 rules=R1_map_err_last_layer
+//@repo crates/fri/src/fri.rs fn fri_verify props=C01,C02,C06,C07 rules=R1_map_err_last_layer
 pub fn fri_verify(
     queries: &[Felt],
     commitment: FriCommitment,
@@ -391,7 +391,7 @@ pub fn fri_verify(
     requires
         fri_verify_pre(queries@, &commitment, decommitment.points@), // [C18:fri-verify-called-with-commitment-from-fri-commit-and-points-from-queries]
     ensures
-        r.is_ok() <==> fri_verify_ok(queries@, &commitment, fv(decommitment.values@), fv(decommitment.points@), &witness, crate::swiftness_fri::group::fri_group_values()), // [C01,C02,C07:fri-ok-iff-lengths-match-every-inner-layer-decommits-and-last-layer-polynomial-agrees]
+        r.is_ok() <==> fri_verify_ok(queries@, &commitment, fv(decommitment.values@), fv(decommitment.points@), &witness, crate::swiftness_fri::group::fri_group_values()), // [C01,C02,C06,C07:fri-ok-iff-lengths-match-every-inner-layer-decommits-and-last-layer-polynomial-agrees]
 {
     hide(fadd); hide(fsub); hide(fmul);
     if queries.len() != decommitment.values.len() {
